@@ -254,4 +254,42 @@ theorem failure_is_interruption {lib : List Nat} {r : Nat} : ∀ (n : Nat) (f g 
           rw [hc'] at hi
           exact hi
 
+/-- the same for a run that was going to be interrupted before its `k`-th step but failed earlier -/
+theorem prefix_failure_is_interruption {lib : List Nat} {r : Nat} : ∀ (k : Nat) (f g : File) (e : Err),
+    WF f → interrupt lib r k f = (g, some e) → ∃ j, j < k ∧ interrupt lib r j f = (g, none) := by
+  intro k
+  induction k with
+  | zero => intro f g e _ hi; simp [interrupt, runSteps] at hi
+  | succ k ih =>
+    intro f g e hwf hi
+    cases hc : collect lib f with
+    | nil => unfold interrupt at hi; rw [hc] at hi; simp [runSteps] at hi
+    | cons s rest =>
+      cases hs : applyStep lib r f s with
+      | mk f' e' =>
+        cases e' with
+        | some e' =>
+          have hf := head_fail_unchanged hwf hc hs
+          subst hf
+          unfold interrupt at hi
+          rw [hc, List.take_succ_cons, runSteps_cons, hs] at hi
+          simp only [Prod.mk.injEq] at hi
+          refine ⟨0, by omega, ?_⟩
+          unfold interrupt
+          rw [← hi.1]
+          rfl
+        | none =>
+          obtain ⟨hwf', hc'⟩ := collect_step hwf hc hs
+          have hi' : interrupt lib r k f' = (g, some e) := by
+            unfold interrupt at hi ⊢
+            rw [hc, List.take_succ_cons, runSteps_cons, hs] at hi
+            rw [hc']
+            exact hi
+          obtain ⟨j, hj, hij⟩ := ih f' g e hwf' hi'
+          refine ⟨j + 1, by omega, ?_⟩
+          unfold interrupt at hij ⊢
+          rw [hc, List.take_succ_cons, runSteps_cons, hs]
+          rw [hc'] at hij
+          exact hij
+
 end Nix.Upgrade.Lemmas
